@@ -85,6 +85,24 @@ def main():
     c = DeterministicSimulator().py_simulate(itf2, T).py_get_result()
     if not np.allclose(b, c):
         return dict(reproduced=True, call='reused interface after set_parameter', observed=b[-1].tolist(), expected=c[-1].tolist())
+    # ... and later set_species calls, also when the unchanged model was initialised again in between (interfaces share the model's value arrays)
+    for safe in (False, True):
+        M = fresh()
+        itf = (ModelCSimInterface if not safe else __import__('bioscrape.simulator', fromlist=['SafeModelCSimInterface']).SafeModelCSimInterface)(M)
+        M.py_initialize()
+        M.py_initialize()
+        M.set_species({'A': 31, 'B': 7})
+        for mode in (dict(stochastic=False), dict(stochastic=True)):
+            py_seed_random(99)
+            got = py_simulate_model(T, Interface=itf, return_dataframe=False, **mode).py_get_result()
+            F = fresh()
+            F.set_species({'A': 31, 'B': 7})
+            py_seed_random(99)
+            want = py_simulate_model(T, Model=F, safe=safe, return_dataframe=False, **mode).py_get_result()
+            n += 1
+            if not np.allclose(got, want, rtol=0, atol=1e-9):
+                return dict(reproduced=True, call='interface (safe=%s) built, unchanged model initialised again, set_species(A=31, B=7), then simulate %r through the interface' % (safe, mode),
+                            what='first row', observed=got[0].tolist(), expected=want[0].tolist())
     # samplers are functions of the seeded stream only: the first draws after seeding do not depend on what was drawn before the seed call
     from bioscrape.random import py_normal_rv, py_gamma_rv, py_uniform_rv
     for warm in (0, 1, 2, 3):
